@@ -410,10 +410,18 @@ def call(ip, name, args, kw):
         a = [S(x) for x in to_obj_array(args[0]).ravel()]
         if not all(x.is_number and x.is_real for x in a):
             raise OutsideFragment("np.unique of symbolic values")
-        out = []
-        for x in sorted(a):
+        out, first = [], []
+        for pos, x in sorted(enumerate(a), key=lambda t: (t[1], t[0])):
             if not out or x != out[-1]:
                 out.append(x)
+                first.append(pos)
+        if kw.get("return_index"):
+            extra = [k for k in ("return_inverse", "return_counts") if kw.get(k)]
+            if extra:
+                raise OutsideFragment("np.unique with " + ", ".join(extra))
+            return (to_obj_array(out), np.array(first, dtype=int))
+        if kw.get("return_inverse") or kw.get("return_counts"):
+            raise OutsideFragment("np.unique with return_inverse/return_counts")
         return to_obj_array(out)
     if name == "roll":
         a = to_obj_array(args[0])
